@@ -261,6 +261,9 @@ func (d *Data) handleSyncMessage(ctx *datastore.VersionedCtx, msg datastore.Sync
 	d.StartUpdate()
 	defer d.StopUpdate()
 
+	d.mutateMu.Lock()
+	defer d.mutateMu.Unlock()
+
 	t0 := time.Now()
 	mutation := fmt.Sprintf("sync of data %s: event %s", d.DataName(), msg.Event)
 	var diagnostic string
